@@ -1,8 +1,8 @@
 """component engine: C27 (component round trip at any nesting depth)"""
-COMP_TB = ["coq/Model/Comp.v: hand-written mirror of Component::parse_comp (inline payload stream of parse_all, per-level stack, "
-           "pushes on the parent's stack, run-length section log, consumed component-name section) and Component::encode_comp "
+COMP_TB = ["coq/Model/Comp.v: hand-written mirror of Component::parse_comp (inline payload stream of parse_all, per-level stack that "
+           "follows the nesting while a nested body is skipped, run-length section log, consumed component-name section) and Component::encode_comp "
            "(replay of the log with per-kind cursors, start-section assert, rebuilt name section), tied to /repo by the correspondence "
-           "run; coq/Check/CheckComp.v: the tree equivalence (normal forms) and the D14 input class",
+           "run; coq/Check/CheckComp.v: the tree equivalence (normal forms)",
            "harness/src/bin/comp.rs: decoding of input and output into section trees (items = hash-consed raw bytes; imports/exports = "
            "hash-consed parsed form; modules = hash-consed wasmprinter text), the dump of the real parse_all payload sequence, and the "
            "re-encoding table (component-type item |-> the item as wrappers.rs re-encodes it), empty since the repair of D28 / D29: "
@@ -13,8 +13,8 @@ PROPS = {
         engine="comp",
         check_targets=["Check/CheckComp.vo"],
         proof_targets=["Props/C27.vo"],
-        theorems=[("C27", "C27_roundtrip_exact"), ("C27", "C27_roundtrip"), ("C27", "C27_depth2"), ("C27", "C27_refuted_D14"),
-                  ("C27", "C27_refuted_D14_panic"), ("C27", "C27_a_reencoded_item_breaks_the_round_trip"), ("C27", "C27_checker_sound"), ("C27", "C27_eqvb_reflects")],
+        theorems=[("C27", "C27_roundtrip_exact"), ("C27", "C27_roundtrip"), ("C27", "C27_depth2"), ("C27", "C27_former_D14_witness_holds"),
+                  ("C27", "C27_former_D14_panic_witness_holds"), ("C27", "C27_a_reencoded_item_breaks_the_round_trip"), ("C27", "C27_checker_sound"), ("C27", "C27_eqvb_reflects")],
         quick=dict(n=1200), thorough=dict(n=24000), per_shard=400,
         rule="components built with wasm-encoder's raw Component/section API (every section boundary chosen by the generator: random "
              "interleavings of all twelve section kinds, adjacent sections of one kind, empty sections, component-name section at a random "
@@ -24,13 +24,15 @@ PROPS = {
              "stream/future and explicit core rec groups, core types, canonical functions (lift, lower, resource.drop, stream/future/async builtins), imports, exports, "
              "custom sections, start; only inputs accepted by wasmparser::Validator (all features) are kept; plus every component found "
              "under /repo/tests (*.wasm, *.wat and the top-level (component ...) forms of *.wast, assembled with wat 1.259) and 11 "
-             "hand-written witnesses; one third of the deep trees are 'chain' shaped (every level's only nested body is its last section) so "
-             "that the positive theorem is sampled at depth 3 and 4 too; non-trivial = depth >= 1 and >= 3 sections; distinct by hash of the case term",
-        level_text="Proof (Coq, every section tree: unbounded width, arbitrary interleavings, ANY nesting depth) that outside the input "
-                   "class D14 (a nested component whose bodies at depth >= 2 outnumber its closing chain: deep > chain; D28 and D29 -- component-type items "
-                   "that wrappers.rs re-encoded differently -- are repaired by fix: commits) the model of parse_comp + encode_comp returns exactly the normal "
-                   "form of the input tree, hence a tree equivalent to the input; corollary for depth <= 2; vm_compute refutations of the "
-                   "unrestricted statement (content duplicated into an ancestor; encode panic). The model is tied to "
+             "hand-written witnesses (among them the five shapes of the former defect D14: sections that follow a nested component which has nested "
+             "bodies of its own); one third of the deep trees are 'chain' shaped (every level's only nested body is its last section), the others "
+             "have sections behind deep children; non-trivial = depth >= 1 and >= 3 sections; distinct by hash of the case term",
+        level_text="Proof (Coq, EVERY well-formed section tree: unbounded width, arbitrary interleavings, ANY nesting depth, no excluded input class) "
+                   "that the model of parse_comp + encode_comp returns exactly the normal form of the input tree, hence a tree equivalent to the input "
+                   "(D14 -- sections behind a body at depth >= 2 leaked into the parent -- is repaired: the skipping loop follows the nesting, lemma skip_node; "
+                   "D28 and D29 -- component-type items that wrappers.rs re-encoded differently -- are repaired too, all by fix: commits); the depth <= 2 "
+                   "form is a plain instance; the two former D14 refutation witnesses (content duplicated into an ancestor; encode panic) are now "
+                   "vm_compute'd positive examples. The model is tied to "
                    "/repo's working tree by differential evaluation inside Coq on generated components and the repository's fixtures "
                    "(model's payload stream =? the payload sequence parse_all really produced; model round trip =? decoded real output), "
                    "and the independent checker (normal form of the decoded output =? normal form of the decoded input, validator verdict) "
@@ -43,7 +45,7 @@ PROPS = {
                   "+ in-Coq differential correspondence against Component::parse / Component::encode under catch_unwind",
         design_ref="5/C27",
         trusted_base=COMP_TB,
-        modelled="Component::parse_comp (stack / parent_stack / add_to_sections / name section handling), Component::encode_comp (section replay, "
+        modelled="Component::parse_comp (stack: End pops, nested-section payloads push while skipping / add_to_sections / name section handling), Component::encode_comp (section replay, "
                  "start assert, name section); wrappers.rs::convert_component_type / convert_instance_type only through the per-case re-encoding table",
         assumptions=["'same sections / same contents' is read up to framing: how a run of items of one kind is split into sections, the position "
                      "of the component-name section and the order of its subsections, the always-added (possibly empty) component-name "
